@@ -87,7 +87,11 @@ func carCountItemsByFirstByte(carPath string) (map[byte]uint64, *ipldbindcode.Ep
 			return nil, nil, err
 		}
 		// the first data byte is the block type (after the CBOR tag)
-		firstDataByte := block[1]
+		kind, err := iplddecoders.GetKind(block)
+		if err != nil {
+			return nil, nil, fmt.Errorf("failed to get the kind of an object: %w", err)
+		}
+		firstDataByte := byte(kind)
 		counts[firstDataByte]++
 		numTotalItems++
 
